@@ -114,6 +114,16 @@ func c05Run(c *mc.Ctx) {
 			writerBFS(c, "C05", WriterCfg{Kind: "default", Sizes: []int{1, 4097}, Reverse: rev, Warm: warm}, 3)
 			writerBFS(c, "C05", WriterCfg{Kind: "bytes", InitLen: 3, InitCap: 8, Sizes: []int{1, 4097}, Reverse: rev, Warm: warm}, 3)
 		}
+		// regions and payloads beyond 1 MiB / 2 MiB
+		if c.Mine() {
+			writerBFS(c, "C05", WriterCfg{Kind: "default", Sizes: []int{5, 1<<20 + 1, 1 << 21}, Reverse: rev}, 3)
+		}
+		if c.Mine() {
+			writerBFS(c, "C05", WriterCfg{Kind: "default", FailAt: 2, SinkMode: 2, Sizes: []int{5, 1<<20 + 1, 1 << 21}, Reverse: rev}, 3)
+		}
+		if c.Mine() {
+			writerBFS(c, "C05", WriterCfg{Kind: "bytes", InitLen: 7, InitCap: 4096, Sizes: []int{5, 1<<20 + 1, 1 << 21}, Reverse: rev}, 3)
+		}
 	}
 }
 
